@@ -36,6 +36,12 @@ def run(ctx):
     # ---- M1 design check ----
     r = ctx.tlc("MC_JobProtocol", cfg="MC_C10.cfg", workers=8, coverage=True, timeout=900)
     ctx.require_coverage(r, ACTIONS)
+    # the lock-free final read of Submitter.__call__ is part of the model: harmless without rerun (FinalReadFindsResult
+    # holds above), but TLC must find the race with a concurrent rerun submitter (recorded observation, DESIGN 13.6)
+    rr = ctx.tlc("MC_JobProtocol", cfg="MC_FinalRead_rerun.cfg", workers=4, must_pass=False, timeout=600)
+    if "FinalReadFindsResult" not in rr.invariant_violated:
+        raise core.MachineryError("model insensitive: the concurrent-rerun race of the final lock-free read is not reachable")
+    ctx.observe("concurrent rerun submitters: the lock-free final read can find the directory wiped (TLC counterexample exists)")
     # ---- M3 behaviours -> real processes ----
     behs = jc.tlc_behaviours(ctx, "c10_2p", ["p1", "p2"], lroot="LeftoversAndDone")   # incl. leftover incomplete directories
     if ctx.thorough:
